@@ -19,7 +19,8 @@ EXPLANATION = (
     "dataclass constructions, Enum members, tuples matched by `match` - module- and class-level tables, precompiled struct.Struct objects "
     "and operator / functools / itertools spellings are read as the values and operations they denote): is_allowed is "
     "walked for all 32 assignments of its five atoms (bt, ipv8, BT-flag, IPV8-flag, own-prefix) and must return "
-    "(bt&BT)|(v8&V8)|(v8&own), reading the flags from the node's live settings (not from a copy stored on the socket); every path of TunnelExitSocket.sendto to transport.sendto and of datagram_received to "
+    "(bt&BT)|(v8&V8)|(v8&own), reading the flags from the node's live settings (not from a copy stored on the socket) - a decision on a value the walk could not read "
+    "(an opaque loop variable, the result of an unknown call) leaves the table undecided, only a dependency on code that was read is reported; every path of TunnelExitSocket.sendto to transport.sendto and of datagram_received to "
     "tunnel_data has established a truthy is_allowed(<the very data emitted>); closed sets of callers for transport.sendto / "
     "exit_socket.sendto / enable / tunnel_data / exit_data / join_circuit; every path to exit_data has established "
     "destination != ('0.0.0.0', 0) and every path to transport.sendto the same for the address actually emitted (after "
@@ -3290,6 +3291,58 @@ def _unknown_leaves(sym: _Sym, x: ast.AST, st: _St):
         yield x
 
 
+_TOKEN_MARKS = "#!@~"
+
+
+def _unread_part(ctx: Ctx, fi: FuncInfo, x: ast.AST) -> str | None:
+    """the first part of the walked condition x that stands for a value the walk could NOT read, if any: a token the walk put in place
+    of a local it lost track of (a loop variable over rows it cannot enumerate, a local assigned in a loop body / from a value it does
+    not represent - `name~`, `name#12`, `name!2`, `name@helper`, or the plain name of a local), the result of a call that resolves to
+    no function of the tree and is no pure builtin / value method, an await.  Everything else - parameters, `self.<path>`, constants,
+    module-level names, calls of functions the tree defines, pure builtins - is code the walk read: a decision that depends on such
+    a value depends on something the documented table does not have."""
+    import builtins
+    bound: set[str] = set()
+    for n in ast.walk(x):
+        if isinstance(n, ast.Lambda):
+            a = n.args
+            bound |= {y.arg for y in [*a.posonlyargs, *a.args, *a.kwonlyargs, *([a.vararg] if a.vararg else []), *([a.kwarg] if a.kwarg else [])]}
+        elif isinstance(n, ast.comprehension):
+            bound |= {y.id for y in ast.walk(n.target) if isinstance(y, ast.Name)}
+        elif isinstance(n, ast.NamedExpr) and isinstance(n.target, ast.Name):
+            bound.add(n.target.id)
+    params = set(fi.params())
+    for n in ast.walk(x):
+        if isinstance(n, (ast.Await, ast.Yield, ast.YieldFrom)):
+            return norm(n)
+        if isinstance(n, ast.Name):
+            if n.id in bound:
+                continue
+            if any(c in n.id for c in _TOKEN_MARKS):
+                return n.id
+            if local_defs(fi, n.id):
+                return n.id
+            if n.id in params or n.id in ("self", "cls") or hasattr(builtins, n.id) or n.id in fi.module.imports \
+                    or ctx.repo.resolve_name(fi.module, n.id) is not None:
+                continue
+            return n.id
+        if isinstance(n, ast.Call):
+            fn = chain(n.func)
+            if fn is not None and (fn in _SIM_PURE or any(fn.startswith(lib + ".") for lib in _LIBS)):
+                continue
+            if isinstance(n.func, ast.Attribute) and n.func.attr in _VALUE_METHODS:
+                continue
+            if isinstance(n.func, ast.Name) and n.func.id in bound:
+                continue
+            try:
+                known = _resolve_ref(ctx.repo, fi.module, fi.cls, n.func) is not None or bool(ctx.repo.resolve_call(fi, n))
+            except AnalysisError:
+                known = False
+            if not known:
+                return norm(n)
+    return None
+
+
 def _table_rows(ctx: Ctx, fi: FuncInfo, atoms: dict[str, list[tuple]], ingredients: tuple[str, ...], on_guess=None, derived=None):
     """(assignment, set of truth values fi can return under it) for all assignments of the named atoms; each atom is
     given by the fact keys of its accepted spellings.  The function is walked path by path (loops over literal tables,
@@ -3320,6 +3373,17 @@ def _table_rows(ctx: Ctx, fi: FuncInfo, atoms: dict[str, list[tuple]], ingredien
                 on_guess([x for x in [*[c for c, _ in st.trail], *([ret] if t is None else [])] if any(i in norm(x) for i in ingredients)])
             if guessed:
                 raise AnalysisError(f"undecided: {fi.qualname} tests `{guessed[0][:90]}`, not one of the recognised spellings of its atoms")
+            # what is left are conditions that mention no ingredient of the atoms.  Such a condition is a dependency the table does not
+            # have only when the walk READ it (a parameter, `self.enabled`, a function of the tree ..); a value the walk lost track of
+            # (an opaque loop variable, the result of an unknown call) may well be one of the atoms computed somewhere the walk did not
+            # look - nothing can be said about the rows then
+            for c in [*[c for c, _ in st.trail], *([ret] if t is None else [])]:
+                leaves = list(_unknown_leaves(sym, c, st)) if c is ret else [c]
+                for leaf in leaves or [c]:
+                    part = _unread_part(ctx, fi, leaf)
+                    if part is not None:
+                        raise AnalysisError(f"undecided: {fi.qualname} decides on `{norm(leaf)[:90]}`, where `{part[:60]}` is a value the walk "
+                                            "could not read (it may or may not be one of the atoms)")
             got |= {True, False} if t is None else {t}
         if not got:
             raise AnalysisError(f"undecided: {fi.qualname} has no returning path under {env}")
@@ -4877,7 +4941,8 @@ def rule_classifiers(ctx: Ctx) -> None:
 
     bt_atoms = {n: [("truthy", f"DataChecker.{n}({data})", None)] for n in ("could_be_dht", "could_be_udp_tracker", "could_be_utp")}
     # (a combination of the three classifier results that the walk cannot evaluate is undecided, not a finding)
-    ok = all(got == {any(env.values())} for env, got in _table_rows(ctx, bt, bt_atoms, ()))
+    # (every row is computed before any is judged: a row the walk could not read makes the whole table undecided)
+    ok = all(got == {any(env.values())} for env, got in list(_table_rows(ctx, bt, bt_atoms, ())))
     ctx.check(ok, "classifier-shape", bt, bt.node, "could_be_bt = utp(data) or udp_tracker(data) or dht(data)",
               "could_be_bt is no longer exactly the disjunction of the three BitTorrent classifiers on its argument")
     for name, (spec_q, spec) in CLASSIFIER_SPEC.items():
